@@ -12,6 +12,7 @@ PROP = {
         "harness/cmd/c08/oracle.go: the E37 table re-stated in Go from the property text (the implementation-level oracle; no reference to the model)",
     ],
     "assumptions": [
+        "every scripted answer of the regenerated dispatcher's environment (Gen2: hsms.TransportRuntime / ConnectionConfig records) and its e2e variation: ConnectionConfig.TraceTraffic -> the whole e2e matrix is crossed with WithTraceTraffic on/off (logger = discard sink; not a model parameter: the same case lines must hold), corpus sweeps (every SType x PType x body, both states), procedures, orphans, own-select, random, pipelined, held-commit and second-connection runs; TransportRuntime.State -> every class is run from Selected and NotSelected (NotConnected during dispatch is reachable only with the recv loop started before TCPUp: held-TCPUp runs); CommitSelected -> first / duplicate Select.req, accepted Select.rsp from both states, delayed in the held-commit runs; RouteReply -> hit (the active side's own Select.req answered in every way) and miss (orphans); SendAsync return value -> ignored by the code (`_ =`), non-nil only while the generation is being torn down: no variation, answers after a link end are not prescribed; DeliverOwnedFrame return value -> ignored by the code, non-nil only on a decode error that readFrame/dispatchFrame have already excluded: no variation. Session-id validation (read inside the engine) and equipment/host are model parameters and crossed as before",
         "chain for the code classes: source -> translator v2 (Gen2.v, coqc-checked: tie_hsmsss_responder_step) -> expect_dispatch -> Properties/Tie2ResponderModel.v (C08_dispatch_is_respond / C08_source_dispatch_is_respond: the call log projects to respond, in every environment that answers what the model state says) -> respond -> C08_all_sequences -> E37 table. Remaining hand-modelled step: the two classes decided inside the engine (data while Selected = DeliverOwnedFrame/checkSessionID/RouteReply/RouteData; a response hitting an open transaction = reply registry + runSelectProcedure's reaction): for these the theorems state exactly what the dispatcher logs, and respond's outcome is tied by the e2e differential only",
         "atomic action 'the TCP-up commit (NotConnected -> NotSelected) happens before the generation's first frame can be dispatched' and 'the Selected commit happens before the peer can hold Select.rsp': now EXERCISED by the held-commit runs (hook hsms/verif_export_runtime.go: the harness parks the transport inside TCPUp for 60 ms, resp. delays CommitSelected, while the peer's Select.req + data + barrier are already written in one burst; passive with/without pipelined data and with a second connection during the hold, active with simultaneous select); the exact differential runs on the outcome",
         "atomicity: one received frame = one step; CommitSelected / CommitSelectLost are synchronous on the recv goroutine; a control transaction closes in the step in which its response is routed (the waiter's deregistration runs on another goroutine shortly after: the harness fences it with an orphan-response probe and records only the probe that was answered)",
